@@ -114,6 +114,9 @@ def run(workdir, module, cfg, workers=16, simulate=None, depth=None, seed=None, 
     cmd.append(module)
     e = dict(os.environ)
     e.update(env or {})
+    # the time-outs written at the call sites were measured on an idle 16-core machine; a loaded one (other checks running
+    # next to this one) has been seen to be four times slower
+    timeout = timeout * int(os.environ.get("QSVERIF_TIMEOUT_SCALE", "4"))
     t0 = time.time()
     try:
         p = subprocess.run(cmd, cwd=workdir, env=e, stdout=subprocess.PIPE, stderr=subprocess.STDOUT,
